@@ -221,6 +221,7 @@ PROPS["C14"] = {
 
 HOOK_COMMITS = [
     "5207efe",
+    "79decb2",
 ]
 
 _pending = "check not built yet in this revision of /verif (planned, see DESIGN.md §8)"
